@@ -94,6 +94,8 @@ def bddQuery (b : BddSt) (w : String) : Option (String × String) := do
   let mm := if b.exception then "- -" else s!"{c.1} {c.2.1}"
   let deps := showDeps (depsOf b.s t)
   let eq := s!"paths {p.1} {p.2} pathsmemo {p.1} {p.2} models {c.1} {c.2.1} modelsmemo {mm} depth {c.2.2} deps {deps} more {boolBit (decide (c.2.1 ≥ c.1))}"
+  -- sampled mode: no full truth tables (`nv` may be huge), the counts are compared with the model only
+  if b.big.isSome then pure (eq, "skipped") else
   let sp := TT.paths b.nv tt
   let sat := TT.sat b.nv tt
   let unsat := TT.unsat b.nv tt
@@ -170,7 +172,9 @@ def bddStep (b : BddSt) (l : String) (ws : List String) : Option (List String ×
     match nv.toNat?, base.toNat?, parseNatList free "," with
     | some nv, some base, some free =>
       if free.length ≤ 7 && free.Nodup && free.all (· < nv) then
-        some ([l], { BddSt.fresh nv b.exception with tts := #[0, TT.mask free.length], big := some (base, free) })
+        -- (not via `BddSt.fresh nv`: the full truth-table mask of `nv` variables is astronomically large here)
+        some ([l], { s := Store.init, hist := #[0, 1], tts := #[0, TT.mask free.length], nv := nv,
+                     exception := b.exception, big := some (base, free) })
       else some ([l, "= bad-request"], b)
     | _, _, _ => some ([l, "= bad-request"], b)
   | "var" :: _ | "const" :: _ | "not" :: _ | "and" :: _ | "or" :: _ | "imp" :: _ | "iff" :: _ | "xor" :: _
